@@ -86,7 +86,7 @@ static Outcome execute(const Scenario *sc, const Plan &p, bool verbose = false) 
   Outcome o;
   o.run.verbose = verbose;
   alloc_reset_run();
-  g_rand_stream = nullptr; g_arch_cap = -1;
+  g_rand_stream = nullptr; g_arch_cap = -1; g_arch_force = -1;
   alarm(getenv("OPSIM_WATCHDOG") ? atoi(getenv("OPSIM_WATCHDOG")) : 60);
   g_in_run = true; g_ctx = "";
   try {
